@@ -1,8 +1,6 @@
-import Ntrip.Guards.Apps
 import Ntrip.Proofs.Reader
 import Ntrip.Proofs.SegmentRefine
 import Ntrip.Properties.C02
-import Ntrip.Generated.Skeletons
 /-!
 # C13 — transient end-of-file or read timeouts on the input lose and duplicate nothing
 
@@ -67,25 +65,9 @@ theorem persistent_failure_stops (cfg : RCfg) (hτ : cfg.tau ≠ 0) (t0 t1 : Nat
     (runReader cfg (.eof :: .eof :: post) { clock := t0 :: t1 :: clock }).2 = .toleranceExpired := by
   simp [runReader, stepReader, hτ, hlate]
 
-/-- Tie T1: the skeleton of `Handle` (unbuffered byte channel, closed on every return path by
-    `defer`, the framing goroutine started before the loop). -/
-theorem tie_skeleton :
-    Gen.skeleton_fh_Handler_Handle = some ["makechan cap=0", "defer close byteChan",
-      "go handler.RTCMHandler.HandleMessages", "for", "return", "return", "return", "send byteChan"] ∧
-    Gen.skeleton_handler_Handler_HandleMessages = some ["for", "close ch_out", "return", "send ch_out"] := by
-  constructor <;> decide
-
 /-! Non-vacuity (tests): EOF inside a frame, tolerated. -/
 example : Isolated [.byte 0xD3, .eof, .byte 0x00, .timeout, .byte 0x01] := by simp [Isolated, ReadRes.isSoftFailure, ReadRes.isByte]
 example : (runReader ⟨50, 1⟩ [.byte 0xD3, .eof, .byte 0x00, .timeout, .byte 0x01] { clock := [10, 20] }).1.forwarded
     = [0xD3, 0x00, 0x01] := by decide
-
-/-- Tie T1: what `Handle` hands over — single bytes by value, from the read loop itself (one
-    byte per `Read`, so a read result is either a byte or an error, as in the model's `ReadRes`). -/
-theorem tie_handover :
-    Gen.sent_fh_Handler_Handle = some ["go handler.RTCMHandler.HandleMessages()", "byteChan <- buf[0]"] := by decide
-
-/-- Tie T1 (guards): the conditions and loops of `Handle` (which results stop it, which are tolerated, when a byte is forwarded). -/
-theorem tie_guards_reader : type_of% Ntrip.Guards.reader := Ntrip.Guards.reader
 
 end Ntrip.C13
